@@ -6,7 +6,7 @@ META = {
              'shapes {small tuple, nested containers, ~300 KiB multi-frame pickle}; first run under backend B1 '
              '(serial/fork/spawn) records value and result_meta of every task; second run in the same process under '
              'B2 and third run in a fresh interpreter with another PYTHONHASHSEED under B3 request random subsets. '
-             'Separately, a stand-alone user script whose task types live in __main__ (the README way of using labtech; nested tasks, post_init, dict parameter) is run for every ordered backend pair: first run under B1, second run with fresh objects under B2 - no re-execution, equal values and result_meta, all entries listed. A fourth phase replaces the entries (bust_cache with new instances under B4) and then hits the cache under B5 with the ORIGINAL task objects, which still carry the result_meta of the overwritten execution. Oracle: is_cached true for every executed task; later runs return the recorded values (values embed '
+             'Separately, a stand-alone user script whose task types live in __main__ (the README way of using labtech; nested tasks, post_init, dict parameter) is run for every ordered backend pair: first run under B1, second run with fresh objects under B2 - no re-execution, equal values and result_meta, all entries listed; a third run uses the task objects returned by cached_tasks (rebuilt from stored metadata; one parameter is a dict whose keys are not in sorted order) and must hit as well. A fourth phase replaces the entries (bust_cache with new instances under B4) and then hits the cache under B5 with the ORIGINAL task objects, which still carry the result_meta of the overwritten execution. Oracle: is_cached true for every executed task; later runs return the recorded values (values embed '
              'task name and the generation of the run that computed them, so a cross-wired or re-executed result '
              'differs), produce zero run() start events, and every loaded instance carries the recorded start and '
              'duration. Distinct by (DAG, shapes, B1, B2, B3, seeds); non-trivial when >= 2 tasks were loaded in a '
@@ -236,6 +236,20 @@ def script_case(rep, b1, b2):
         if x['metas2'] != x['metas1'] or None in x['metas1']:
             rep.violation('hit-meta-differs', f'script-defined tasks {b1}>{b2}: result_meta differs: {x["metas2"]} vs '
                           f'{x["metas1"]}', wit)
+        if not all(x.get('listed_matches') or [False]):
+            rep.violation('not-cached-in-new-process', f'script-defined tasks: cached_tasks returns no task equal to '
+                          f'some original: {x.get("listed_matches")}', wit)
+        elif 'n3' in x:
+            rep.count('script_runs_of_tasks_returned_by_cached_tasks')
+            if x['n3'] != x['n2']:
+                rep.violation('cache-hit-executed', f'script-defined tasks: running the tasks returned by cached_tasks '
+                              f'({b2}) executed {x["n3"] - x["n2"]} task(s) again; keys (listed, original): {x["keys3"]}', wit)
+            if x['values3'] != x['values1']:
+                rep.violation('hit-value-differs', f'script-defined tasks, tasks from cached_tasks: {x["values3"]} vs '
+                              f'{x["values1"]}', wit)
+            if x['metas3'] != x['metas1']:
+                rep.violation('hit-meta-differs', f'script-defined tasks, tasks from cached_tasks: result_meta '
+                              f'{x["metas3"]} vs stored {x["metas1"]}', wit)
         if x['listed'] != 5:
             rep.violation('not-cached-in-new-process', f'script-defined tasks: cached_tasks lists {x["listed"]} of 5 '
                           f'entries', wit)
